@@ -168,7 +168,7 @@ def register(reg):
         Obs.props = props
         Obs.__name__ = "ObsH2_" + name
 
-    observer("is_idle", lambda c: F(c, c.self, "H2._state") == IDLE, ("C01", "C09", "C05"))
+    observer("is_idle", lambda c: F(c, c.self, "H2._state") == IDLE, ("C01", "C09", "C05", "C07"))
     observer("is_closed", lambda c: F(c, c.self, "H2._state") == CLOSED, ("C01", "C06", "C05", "C04"))
     observer(
         "is_available",
@@ -500,7 +500,7 @@ def register(reg):
                 term = c.new(s, "H2._connection_terminated")
                 last = F(c, term, "E2.last_stream_id")
                 out += [
-                    ("refused_only_above_goaway_last_stream_id", ("C14", "C15"), z3.And(term.t != 0, z3.Not(sid.none), sid.val.t > last)),
+                    ("refused_only_above_goaway_last_stream_id", ("C14", "C15", "C20"), z3.And(term.t != 0, z3.Not(sid.none), sid.val.t > last)),
                     ("refusal_before_any_read", ("C14",), len(c.events("net.read")) == 0 and len(c.events("call:" + H2 + "._read_incoming_data")) == 0),
                 ]
             if exc.cls == RPE and not exc.tag.get("from"):
